@@ -228,8 +228,8 @@ def spaces(tier, seed):
     qds = [[0, 1], [1, -1], [0, 0]]
     if tier == 'quick':
         return [
-            Space('scalars', core.chunked(_scalar_cases([1, 2, 3], qds, [1, 2], ['cc', 'rc']), 200), run_case=run_case, sig=sig,
-                  bounds={'L': [1, 2, 3], 'qd': qds, 'D': [1, 2], 'dtypes': ['cc', 'rc'], 'operators_per_pair': 5}),
+            Space('scalars', core.chunked(_scalar_cases([1, 2, 3], qds, [1, 2], ['cc', 'rc', 'cr']), 200), run_case=run_case, sig=sig,
+                  bounds={'L': [1, 2, 3], 'qd': qds, 'D': [1, 2], 'dtypes': ['cc', 'rc', 'cr'], 'operators_per_pair': 5}),
             Space('density', core.chunked(_density_cases([1, 2], [[0, 1], [0, 0]]), 200), run_case=run_case, sig=sig,
                   bounds={'L': [1, 2], 'D': [1, 2]}),
             Space('local_problems', core.chunked(_local_cases([1, 2, 3], [[0, 1], [0, 0]], [1, 2]), 20), run_case=run_case, sig=sig,
@@ -237,8 +237,8 @@ def spaces(tier, seed):
                           'problems': 'every site: one-site, two-site, zero-site; Hermitian and non-Hermitian operator'}),
         ]
     return [
-        Space('scalars', core.chunked(_scalar_cases([1, 2, 3], qds, [1, 2, 3], ['cc', 'rc', 'rr']), 200), run_case=run_case, sig=sig,
-              bounds={'L': [1, 2, 3], 'qd': qds, 'D': [1, 2, 3], 'dtypes': ['cc', 'rc', 'rr']}),
+        Space('scalars', core.chunked(_scalar_cases([1, 2, 3], qds, [1, 2, 3], ['cc', 'rc', 'cr', 'rr']), 200), run_case=run_case, sig=sig,
+              bounds={'L': [1, 2, 3], 'qd': qds, 'D': [1, 2, 3], 'dtypes': ['cc', 'rc', 'cr', 'rr']}),
         Space('density', core.chunked(_density_cases([1, 2, 3], [[0, 1], [0, 0]]), 200), run_case=run_case, sig=sig,
               bounds={'L': [1, 2, 3], 'D': [1, 2]}),
         Space('local_problems', core.chunked(_local_cases([1, 2, 3], [[0, 1], [1, -1], [0, 0]], [1, 2]), 20), run_case=run_case, sig=sig,
